@@ -69,6 +69,8 @@ V_ENSURES((V_OLD(dl->zck->error_state) > 0 && dl->zck->check_chunk_hash.ctx == V
 ;
 
 
+/* NOTE: the three callbacks are specified for dl_v != NULL only (with NULL they return 0 at once): CBMC evaluates
+ * history expressions (V_OLD) unconditionally at entry, so clauses about dl_v's old state cannot be guarded. */
 /* ---- the three transport callbacks (C05: the callback reports an error; C17: every invocation returns; C12) ------
  * A client callback chained behind the library's (dl->write_cb / dl->header_cb) is represented by the stand-in
  * verif_user_wcb: any return value, touches nothing of the library's state (assumed).                          */
@@ -88,39 +90,36 @@ V_ENSURES(g_fpos[G_IX(zck->fd)] == V_OLD(g_fpos[G_IX(zck->fd)])) /*@C12,C05.tell
 #define CB_HOOKS(dl) (((dl)->write_cb == NULL || (dl)->write_cb == verif_user_wcb) && ((dl)->header_cb == NULL || (dl)->header_cb == verif_user_wcb))
 #define CB_DL(dl) (DL_MP_CTX(dl) && (dl)->zck != NULL && ((dl)->boundary == NULL || STR_TERMINATED((dl)->boundary)) && MPX_DL(dl) && CB_HOOKS(dl))
 /* a chunk newly marked failed (-1) during the invocation => the callback does not report "all n bytes taken" */
-#define CB_FAIL_REPORTED1(r, ret, n) ((r) == NULL || V_OLD((r)->src->valid) == -1 || (r)->src->valid != -1 || (ret) != (n))
+#define CB_FAIL_REPORTED1(r, ret, n) (DR_ABSENT(r) || DR_VALID0(r) == -1 || (r)->src->valid != -1 || (ret) != (n))
 size_t zck_write_chunk_cb(void *ptr, size_t l, size_t c, void *dl_v)
-V_REQUIRES(dl_v == NULL || CB_DL(CBD))
+V_REQUIRES(dl_v != NULL && CB_DL(CBD))
 V_REQUIRES(CB_LEN_OK(l, c) && (l * c == 0 || __CPROVER_rw_ok(ptr, l * c)))
-V_ASSIGNS(dl_v != NULL: CBD->dl; dl_v != NULL: CBD->dl_regex; dl_v != NULL: CBD->end_regex; dl_v != NULL && CBD->mp != NULL: *CBD->mp; l * c > 0: __CPROVER_object_upto((char *)ptr, l * c); dl_v != NULL: DL_RANGE_ASSIGNS(CBD))
-V_FREES(dl_v != NULL && CBD->mp != NULL: CBD->mp->buffer; dl_v != NULL: CBD->zck->check_chunk_hash.ctx)
-V_ENSURES(dl_v != NULL || __CPROVER_return_value == 0) /*@C17.zck_write_chunk_cb.no_context_is_an_error*/
-V_ENSURES(dl_v == NULL || CB_DL(CBD)) /*@C05,C17.zck_write_chunk_cb.parser_and_download_state_invariants_kept_on_every_return*/
-V_ENSURES(dl_v == NULL || l * c == 0 || (CB_FAIL_REPORTED1(g_dr1, __CPROVER_return_value, l * c) && CB_FAIL_REPORTED1(g_dr2, __CPROVER_return_value, l * c) && CB_FAIL_REPORTED1(g_dr3, __CPROVER_return_value, l * c))) /*@C05.zck_write_chunk_cb.a_checksum_mismatch_is_reported_by_the_callback*/
-V_ENSURES(dl_v == NULL || l * c == 0 || V_OLD(CBD->zck->error_state) == 0 || __CPROVER_return_value != l * c) /*@C05,C12,C17.zck_write_chunk_cb.a_context_in_error_is_reported_by_the_callback*/
-V_ENSURES(dl_v == NULL || V_OLD(CBD->zck->error_state) == 0 || WW_SAME) /*@C05,C17.zck_write_chunk_cb.nothing_is_written_on_a_context_in_error*/
-V_ENSURES(dl_v == NULL || l * c == 0 || CBD->boundary != NULL || CBD->zck->error_state == 0 || V_OLD(CBD->zck->error_state) > 0 || __CPROVER_return_value != l * c) /*@C05,C12.zck_write_chunk_cb.an_error_raised_while_writing_a_plain_range_body_is_reported_by_the_callback*/
+V_ASSIGNS(CBD->dl; CBD->dl_regex; CBD->end_regex; CBD->mp != NULL: *CBD->mp; l * c > 0: __CPROVER_object_upto((char *)ptr, l * c); DL_RANGE_ASSIGNS(CBD))
+V_FREES(CBD->mp != NULL: CBD->mp->buffer; CBD->zck->check_chunk_hash.ctx)
+V_ENSURES(CB_DL(CBD)) /*@C05,C17.zck_write_chunk_cb.parser_and_download_state_invariants_kept_on_every_return*/
+V_ENSURES(l * c == 0 || (CB_FAIL_REPORTED1(g_dr1, __CPROVER_return_value, l * c) && CB_FAIL_REPORTED1(g_dr2, __CPROVER_return_value, l * c) && CB_FAIL_REPORTED1(g_dr3, __CPROVER_return_value, l * c))) /*@C05.zck_write_chunk_cb.a_checksum_mismatch_is_reported_by_the_callback*/
+V_ENSURES(l * c == 0 || V_OLD(CBD->zck->error_state) == 0 || __CPROVER_return_value != l * c) /*@C05,C12,C17.zck_write_chunk_cb.a_context_in_error_is_reported_by_the_callback*/
+V_ENSURES(V_OLD(CBD->zck->error_state) == 0 || WW_SAME) /*@C05,C17.zck_write_chunk_cb.nothing_is_written_on_a_context_in_error*/
+V_ENSURES(l * c == 0 || CBD->boundary != NULL || CBD->zck->error_state == 0 || V_OLD(CBD->zck->error_state) > 0 || __CPROVER_return_value != l * c) /*@C05,C12.zck_write_chunk_cb.an_error_raised_while_writing_a_plain_range_body_is_reported_by_the_callback*/
 V_ENSURES(DR_VALID_KEPT1(g_dr1) && DR_VALID_KEPT1(g_dr2) && DR_VALID_KEPT1(g_dr3)) /*@C05.zck_write_chunk_cb.valid_chunks_stay_valid*/
 ;
 /* header download: the bytes go straight to the target descriptor (C12: accepting means every byte was written) */
 size_t zck_write_zck_header_cb(void *ptr, size_t l, size_t c, void *dl_v)
-V_REQUIRES(dl_v == NULL || (__CPROVER_rw_ok(CBD, sizeof(zckDL)) && CBD->zck != NULL && __CPROVER_rw_ok(CBD->zck, sizeof(zckCtx)) && CB_HOOKS(CBD)))
+V_REQUIRES(dl_v != NULL && __CPROVER_rw_ok(CBD, sizeof(zckDL)) && CBD->zck != NULL && __CPROVER_rw_ok(CBD->zck, sizeof(zckCtx)) && CB_HOOKS(CBD))
 V_REQUIRES(CB_LEN_OK(l, c) && (l * c == 0 || __CPROVER_r_ok(ptr, l * c)))
-V_ASSIGNS(dl_v != NULL: CBD->dl; g_fpos, g_wr_bytes, g_io_failed, g_win_bad, g_ww_hit, g_ww_val)
-V_ENSURES(dl_v != NULL || __CPROVER_return_value == 0) /*@C17.zck_write_zck_header_cb.no_context_is_an_error*/
-V_ENSURES(dl_v == NULL || __CPROVER_return_value != l * c || g_wr_bytes[G_IX(CBD->zck->fd)] == V_OLD(g_wr_bytes[G_IX(CBD->zck->fd)]) + l * c) /*@C12.zck_write_zck_header_cb.accepting_means_every_byte_was_written*/
-V_ENSURES(dl_v == NULL || WW_SAME || WW_IN(CBD->zck->fd, V_OLD(g_fpos[G_IX(CBD->zck->fd)]), l * c)) /*@C05.zck_write_zck_header_cb.writes_only_the_span_at_the_current_position*/
+V_ASSIGNS(CBD->dl; g_fpos, g_wr_bytes, g_io_failed, g_win_bad, g_ww_hit, g_ww_val)
+V_ENSURES(__CPROVER_return_value != l * c || g_wr_bytes[G_IX(CBD->zck->fd)] == V_OLD(g_wr_bytes[G_IX(CBD->zck->fd)]) + l * c) /*@C12.zck_write_zck_header_cb.accepting_means_every_byte_was_written*/
+V_ENSURES(WW_SAME || WW_IN(CBD->zck->fd, V_OLD(g_fpos[G_IX(CBD->zck->fd)]), l * c)) /*@C05.zck_write_zck_header_cb.writes_only_the_span_at_the_current_position*/
 ;
 size_t zck_header_cb(char *b, size_t l, size_t c, void *dl_v)
-V_REQUIRES(dl_v == NULL || (DL_MP_CTX(CBD) && CB_HOOKS(CBD)))
+V_REQUIRES(dl_v != NULL && DL_MP_CTX(CBD) && CB_HOOKS(CBD))
 V_REQUIRES(CB_LEN_OK(l, c) && (l * c == 0 || __CPROVER_r_ok(b, l * c)))
-V_ASSIGNS(dl_v != NULL: CBD->hdr_regex; dl_v != NULL: CBD->boundary; dl_v != NULL && CBD->mp != NULL: *CBD->mp; dl_v != NULL && CBD->zck != NULL: CBD->zck->error_state)
-V_FREES(dl_v != NULL && CBD->mp != NULL: CBD->mp->buffer)
-V_ENSURES(dl_v != NULL || __CPROVER_return_value == 0) /*@C17.zck_header_cb.no_context_is_an_error*/
-V_ENSURES(dl_v == NULL || DL_RX_INV(CBD)) /*@C17.zck_header_cb.no_uncompiled_pattern_left_behind_on_any_return*/
-V_ENSURES(dl_v == NULL || CBD->boundary == V_OLD(CBD->boundary) || STR_TERMINATED(CBD->boundary)) /*@C17.zck_header_cb.boundary_is_nul_terminated*/
-V_ENSURES(dl_v == NULL || CBD->mp == NULL || MP_WF(CBD->mp)) /*@C17.zck_header_cb.parser_state_well_formed*/
-V_ENSURES(dl_v == NULL || CBD->header_cb != NULL || __CPROVER_return_value == c * l) /*@C17.zck_header_cb.header_lines_are_always_accepted*/
+V_ASSIGNS(CBD->hdr_regex; CBD->boundary; CBD->mp != NULL: *CBD->mp; CBD->zck != NULL: CBD->zck->error_state)
+V_FREES(CBD->mp != NULL: CBD->mp->buffer)
+V_ENSURES(DL_RX_INV(CBD)) /*@C17.zck_header_cb.no_uncompiled_pattern_left_behind_on_any_return*/
+V_ENSURES(CBD->boundary == V_OLD(CBD->boundary) || STR_TERMINATED(CBD->boundary)) /*@C17.zck_header_cb.boundary_is_nul_terminated*/
+V_ENSURES(CBD->mp == NULL || MP_WF(CBD->mp)) /*@C17.zck_header_cb.parser_state_well_formed*/
+V_ENSURES(CBD->header_cb != NULL || __CPROVER_return_value == c * l) /*@C17.zck_header_cb.header_lines_are_always_accepted*/
 ;
 
 /* ---- life-cycle of the patterns (C17 typestate: regfree only on compiled patterns, every object freed once) ---- */
